@@ -107,8 +107,8 @@ func (v *VS04) Dump() string {
 			} else {
 				pm = &pw.p.partMetadata
 			}
-			bs := fmt.Sprintf("%d", pm.MinTimestamp)
-			if pm.MinTimestamp != pm.MaxTimestamp || pm.TotalCount != 2 {
+			bs := fmt.Sprintf("%d-%d", pm.MinTimestamp, pm.MaxTimestamp)
+			if pm.TotalCount != uint64(2*(pm.MaxTimestamp-pm.MinTimestamp+1)) {
 				bs += "!"
 			}
 			ps = append(ps, fmt.Sprintf("%x:%s:%s", pw.ID(), kind, bs))
@@ -117,6 +117,12 @@ func (v *VS04) Dump() string {
 	}
 	return fmt.Sprintf("epoch=%s parts=%s sidx=- sidxdirs=", ep, strings.Join(ps, ";"))
 }
+
+// MergeAll is not driven for the stream table.
+func (v *VS04) MergeAll() bool { return false }
+
+// WaitGone has nothing to wait for without merges.
+func (v *VS04) WaitGone() bool { return true }
 
 // WaitClean waits until at most one manifest is left (gc.clean of the introducer ran).
 func (v *VS04) WaitClean() bool {
